@@ -149,11 +149,27 @@ class Ctx:
         self.cov['support_tests'][name] = self.cov['support_tests'].get(name, 0) + n
 
     # ---------------- Coq build and obligations -----------------
-    def build(self, files):
+    def build(self, files, generated=None):
         """Full .vo build of the hand-written development, then the
         obligations (theorems of the property file) with Print Assumptions.
-        `files` = list of .v paths relative to coq/ this property depends on;
-        the last one is the property file."""
+        `files` = list of .v paths relative to coq/ this property depends on, in dependency order;
+        the last one is the property file.
+        `generated` = optional {relative path under coq/gen/...: Coq text} of definitions REGENERATED from /repo's
+        current source by a translator on this run; they are (re)written only when their text changed, must also be
+        listed in `files` (before the files that Require them), and every committed file that proves facts about them
+        (e.g. `forall args, generated_f args = model_f args`) is thereby re-checked against the current source."""
+        if generated:
+            self.cov.setdefault('translated_spans', [])
+            for rel, text in generated.items():
+                path = COQ / rel
+                path.parent.mkdir(parents=True, exist_ok=True)
+                if (not path.exists()) or path.read_text() != text:
+                    path.write_text(text)
+                self.cov['translated_spans'].append({'file': rel, 'sha1': hashlib.sha1(text.encode()).hexdigest()[:12],
+                                                     'lines': text.count('\n')})
+            self.trusted.append('translator (harness/py2coq or the property\'s own extractor): a wrong translation of a '
+                                'supported construct would make a theorem speak about different code; mitigated by the '
+                                'correspondence run of the same definitions')
         ok, log, missing = build_files(files)
         propfile = COQ / files[-1]
         bad_kw = forbidden_scan(files)
